@@ -349,6 +349,7 @@ DEFAULT_TLS_SPEC = dict(
     hs_secrets=True, ccs13=True, pad13=0, tickets=0, cert_len=300, ske=False,
     history=[[0, 20, 0], [1, 40, 0]],   # [dir (0 client, 1 server), plaintext length, padding amount]
     sh13_exts=0,           # order / presence of supported_versions, key_share, pre_shared_key in a TLS 1.3 ServerHello (0..4)
+    hrr=0,                 # TLS 1.3: 1 = HelloRetryRequest + compatibility CCS + second ClientHello, 2 = without the CCS (content not claimed)
     share_master=0,        # != 0: the master secret is derived from this value (TLS <= 1.2 connections resumed from one session share it)
     hs_cuts=None,          # [[message index, j], ...] extra record boundaries j bytes into a message of the flight (0..4: around / inside its header)
     client_auth=False,     # CertificateRequest in the server's flight; Certificate / CertificateVerify in the client's
@@ -412,6 +413,18 @@ class TlsConn:
             self.hs_last = len(self.events) - 1
             self.keylog.append(f"CLIENT_RANDOM {self.cr.hex()} {rbytes(rnd, 48).hex()}")
             return
+        if sp.get("hrr") and version == TLS13:
+            # HelloRetryRequest (RFC 8446 4.1.4): a ServerHello with the special random, optionally followed by the middlebox
+            # ChangeCipherSpec, then a second ClientHello with the same random.  What is exported for such a connection is not claimed by
+            # C01; the captures serve C06 / C03 (valid output, no abort)
+            hrr_random = bytes.fromhex("cf21ad74e59a6111be1d8c021e65b891c2a211167abb8c5e079e09e2c8a8339c")
+            hrr_body = rv + hrr_random + bytes([len(sid)]) + sid + struct.pack("!H", suite.code) + b"\x00"
+            hrr_ext = ext(0x002B, b"\x03\x04") + ext(0x0033, struct.pack("!H", 23))
+            hrr_body += struct.pack("!H", len(hrr_ext)) + hrr_ext
+            self._plain(True, 0x16, hs(2, hrr_body), rv, "HRR")
+            if sp["hrr"] == 1:
+                self._plain(True, 0x14, b"\x01", rv, "CCS")
+            self._plain(False, 0x16, ch, rv, "CH2")
         # ---- ServerHello
         sh_ext = b""
         if version == TLS13:
